@@ -22,5 +22,8 @@ CLAIMED = {
          "Explicit-state breadth-first search: from three start dictionaries (empty, with default, populated) every sequence up to depth 2 (quick) / 3 (thorough) of ten dictionary operations over a key pool holding several representatives of each ==-class is executed on the real interpreter; after every transition the dictionary contents (including which representative is stored) and a full battery of observations for every pool key are compared with a lock-step Python finite-map model. States are merged on the engine's canonical dump; an unmerged run one level shallower must give the same verdicts. Plus an exhaustive grid of key sequences through the constructor/aggregate builtins.",
          "trusted: the Python finite-map model (class table of the key pool), the engine's canonical dump of the dictionary, replay-from-scratch as state reconstruction; bounded by depth and key pool",
          "explicit-state BFS over operation histories of the real interpreter with lock-step reference model (every transition validated), state merging on canonical dumps", "DESIGN.md §4 C09, §3.3"),
+ "C11": ("exploration",
+         "Every finite stream constructor instance inside the parameter bounds (ranges with both step signs incl. the 2^63 neighbourhood, permutations/subsequences/combinations/cartesian powers, stream(seq), lazy map/filter/zip) at every drop position is observed through len, list, every index and slice in the window, reverse, first/last, in, truthiness, unpacking and for, and every sequence of up to 2-3 observations on one stream variable is replayed (variable unchanged, answers as on a fresh stream); infinite streams against their recurrences. Reference: Python range/itertools.",
+         GRID_NOTE, "bounded exhaustive enumeration of constructor instances x drop positions x observations and of observation histories on the real interpreter against Python range/itertools", "DESIGN.md §4 C11"),
 }
 NOT_YET ={("C%02d" % i): "check not built yet in this session (design in DESIGN.md §4); will be claimed when its explorer exists" for i in range(1, 18)}
